@@ -8,7 +8,7 @@ package server
 // part of becoming leader; those are committed stream operations like any other. Configurations: cursors stream off / 1 /
 // 3 partitions. Afterwards two ordinary streams are created. Oracle (statement only): the Raft log is read back, every
 // committed operation of a kind that is reported must have an event with its index as id in the activity stream within
-// 15 s, and the ids in the stream's first occurrences are increasing.
+// 75 s, and the ids in the stream's first occurrences are increasing.
 
 import (
 	"fmt"
@@ -25,7 +25,7 @@ const c18pPort = 19870
 
 func TestVerifC18Promotion(t *testing.T) {
 	res := vNewResult("C18", "[operations committed during the first promotion] fresh single-node server, activity stream enabled, cursors stream with 0 / 1 / 3 partitions; the internal streams are created while the server becomes controller, then two ordinary streams; "+
-		"the Raft log is read back: every committed stream / group operation must have an event with its index as id in the activity stream within 15 s, first occurrences in increasing order; non-trivial = cursors stream configured; distinct by (cursors partitions, operation index)")
+		"the Raft log is read back: every committed stream / group operation must have an event with its index as id in the activity stream within 75 s, first occurrences in increasing order; non-trivial = cursors stream configured; distinct by (cursors partitions, operation index)")
 	defer res.Write(t)
 	for _, cur := range []int32{0, 1, 3} {
 		func() {
@@ -83,8 +83,12 @@ func TestVerifC18Promotion(t *testing.T) {
 				}
 				return out
 			}
+			// (a publish that fails while the activity stream's partition is not ready yet is retried after 1, 2, 4, 8, 10 …
+			// seconds: on a slow machine the events of the promotion arrive late, not never)
 			var got []uint64
-			for dl := time.Now().Add(15 * time.Second); time.Now().Before(dl); time.Sleep(50 * time.Millisecond) {
+			t0 := time.Now()
+			defer func() { res.Dist(fmt.Sprintf("all-events-after:%ds", int(time.Since(t0).Seconds()/5)*5)) }()
+			for dl := time.Now().Add(75 * time.Second); time.Now().Before(dl); time.Sleep(50 * time.Millisecond) {
 				got = ids()
 				seen := map[uint64]bool{}
 				for _, id := range got {
@@ -112,7 +116,7 @@ func TestVerifC18Promotion(t *testing.T) {
 				res.Dist(fmt.Sprintf("cursors-partitions:%d", cur))
 				if !seen[i] {
 					res.Fail(vFailure{Kind: "spec", Case: []string{line}, Tag: "activity-event-missing",
-						Detail: fmt.Sprintf("the operation committed at Raft index %d (%s) has no event in the activity stream after 15 s; ids in the stream: %v", i, what, got)})
+						Detail: fmt.Sprintf("the operation committed at Raft index %d (%s) has no event in the activity stream after 75 s; ids in the stream: %v", i, what, got)})
 				}
 			}
 			for k := 1; k < len(firsts); k++ {
